@@ -26,9 +26,12 @@ RULE = (
     "CircuitSerializer._serialize_gate_op (numeric, symbolic and expression arguments, tags, classical controls, "
     "InternalGate args), variants of pool ops that differ only in a tag or in the qubits, sub-circuits + CircuitOperations "
     "with every field of the proto, a moment pool (incl. moments equal up to tags) and a circuit as a *sequence of pool "
-    "indices*, so equal ops / tags / moments recur. Non-trivial program: >=1 constant referenced twice and >=1 symbolic "
+    "indices*, so equal ops / tags / moments recur; constants collide ACROSS KINDS: raw string tags spelling qubit proto ids "
+    "(tag serialized before and after the qubit, on ops / moments / circuits), measurement keys, symbol, gate and tag names, "
+    "NamedQubits named like symbols/keys/tags, tags equal across types (1 / 1.0 / True / '1'). Non-trivial program: >=1 constant referenced twice and >=1 symbolic "
     "argument. sweeps: nested Zip/Product/Concat/ZipLongest/ListSweep/Linspace/Points/const/FiniteRandomVariable over "
-    "disjoint keys with metadata and units; non-trivial: nesting depth>=2. results: drawn records for 1-12 keys, "
+    "disjoint keys with metadata and tunits values whose start/stop/points use DIFFERENT units of one dimension (ns/us/ms, "
+    "kHz/MHz/GHz, mV/V; reference enumerates in the start's / first point's unit), float32 and float64; non-trivial: nesting depth>=2. results: drawn records for 1-12 keys, "
     "repetitions 0..70, instances 1-3, permuted qubit order; non-trivial: repetitions*instances % 8 != 0. devices: drawn "
     "DeviceSpecification (valid and each documented invalid form) + probe operations. Distinct = distinct recipe hash."
 )
